@@ -57,6 +57,23 @@ class C03(flow.Spec):
                 ops.insert(rnd.randrange(len(ops) + 1), self.d(v, max(0, s - 1), min(last, e + 1), last)); tags.add("overlap")
             ops += ["A %d" % v, "C", self.d(v, 0, last, last), "A %d" % v]
             out.append(("part %d %s" % (len(ops), " ".join(ops)), tags))
+        # two disjoint recorded ranges, then a chunk that starts and ends INSIDE them and spans the
+        # hole in between (and variants touching only one side)
+        bridges = []
+        for last in (range(4, 8) if not thorough else range(4, 12)):
+            for a in range(0, last - 2):
+                for b in range(a + 2, last + 1):
+                    for s in range(0, a + 1):
+                        for e in range(b, last + 1):
+                            bridges.append((last, a, b, s, e))
+        if not thorough:
+            bridges = rnd.sample(bridges, min(len(bridges), 30))
+        for last, a, b, s, e in bridges:
+            v = 2
+            first = [self.d(v, 0, a, last), self.d(v, b, last, last)]
+            rnd.shuffle(first)
+            ops = first + [self.d(v, s, e, last), "A %d" % v, "C"]
+            out.append(("part %d %s" % (len(ops), " ".join(ops)), {"bridging-chunk-over-a-hole"}))
         for _ in range(60 if not thorough else 3000):
             ops, tags = [], {"random"}
             lasts = {v: rnd.randrange(0, 6) for v in (2, 3)}
@@ -148,6 +165,50 @@ class C03(flow.Spec):
                 rs = sorted((int(x.split(":")[0].split("-")[0]), int(x.split(":")[0].split("-")[1])) for x in rows)
                 lines.append("chk_seqrows %d %d %s" % (wf[v], len(rs), " ".join("%d %d" % (a, b) for a, b in rs)))
         return lines
+
+
+    def impl_verdict(self, case, impl_obs):
+        """'exactly when all chunks arrived': after an apply step for a version whose delivered
+        chunks (well-formed: all their seqs, one last_seq, no Empty changeset) cover 0..=last,
+        every change of the version must be in the tables"""
+        if impl_obs.startswith(("ERR", "PANIC", "CRASH")):
+            return False
+        t = case.split()
+        i = 2
+        ops = []
+        while i < len(t):
+            if t[i] == "D":
+                v, s, e, last, k = map(int, t[i + 1:i + 6])
+                seqs = list(map(int, t[i + 6:i + 6 + k]))
+                ops.append(("D", v, s, e, last, seqs)); i += 6 + k
+            elif t[i] in ("A", "Z"):
+                ops.append((t[i], int(t[i + 1]))); i += 2
+            else:
+                ops.append(("C",)); i += 1
+        steps = impl_obs.split(" # ")
+        if len(steps) != len(ops):
+            return False
+        got = {}            # version -> set of delivered seqs
+        lasts = {}
+        bad = set()
+        for o, st in zip(ops, steps):
+            if o[0] == "D":
+                _, v, s, e, last, seqs = o
+                if seqs != list(range(s, e + 1)) or lasts.setdefault(v, last) != last or s > e:
+                    bad.add(v)
+                got.setdefault(v, set()).update(seqs)
+            elif o[0] == "Z":
+                bad.add(o[1])
+            elif o[0] == "A":
+                v = o[1]
+                if v in bad or v not in lasts:
+                    continue
+                if got.get(v, set()) >= set(range(0, lasts[v] + 1)):
+                    m = re.search(r"v%d db=(\S*) " % v, st + " ")
+                    db = [x for x in (m.group(1).split(",") if m else []) if x]
+                    if sorted(map(int, db)) != list(range(0, lasts[v] + 1)):
+                        return False
+        return None
 
 
 SPEC = C03
